@@ -50,6 +50,7 @@ func runC01(c *Ctx) {
 	c01counters(c, m)
 	c01close(c, m)
 	c01retry(c, m)
+	c01drainKick(c, m)
 }
 
 // hasPromisedRecArg: some argument has type promisedRec.
@@ -1119,4 +1120,41 @@ func c01close(c *Ctx, m *Module) {
 	}
 	// failAllRecords callers hold recBuf.mu: immediate Lock before in same block (or documented locked context)
 	// (lock discipline is checked under C41/C02)
+}
+
+// c01drainKick: a record buffer that is (re)attached to a sink or whose
+// failing state is cleared must get a drain started for it, otherwise batches
+// that were rewound while the old sink backs off are never sent again.
+func c01drainKick(c *Ctx, m *Module) {
+	rule := "drain-started-after-move"
+	if f := c.NeedFunc(m, "kgo.recBuf.clearFailing"); f != nil {
+		g := f.Graph()
+		info := f.Info()
+		isKick := func(n ast.Node) bool {
+			if _, isDefer := n.(*ast.DeferStmt); isDefer {
+				return false
+			}
+			return containsNode(n, false, func(y ast.Node) bool {
+				call, ok := y.(*ast.CallExpr)
+				return ok && calleeName(info, call) == "kgo.recBuf.maybeTriggerDrain"
+			})
+		}
+		path, found := g.FindPath(Loc{B: -1}, SearchOpts{Stop: isKick, GoalExit: func(k ExitKind, last ast.Node) bool { return k != ExitPanic }})
+		c.Check(!found, rule, f.Key+": maybeTriggerDrain on every path", f.Pos(), m, "", "clearFailing can return without maybeTriggerDrain ("+pathStr(path)+"): it is also what starts the drain after a buffer moved to a new sink (addRecBuf) and after a metadata update, so a rewound batch on a buffer that was not marked failing is never sent again")
+	}
+	if f := c.NeedFunc(m, "kgo.sink.addRecBuf"); f != nil {
+		g := f.Graph()
+		info := f.Info()
+		isClear := func(n ast.Node) bool {
+			if _, isDefer := n.(*ast.DeferStmt); isDefer {
+				return false
+			}
+			return containsNode(n, false, func(y ast.Node) bool {
+				call, ok := y.(*ast.CallExpr)
+				return ok && calleeName(info, call) == "kgo.recBuf.clearFailing"
+			})
+		}
+		path, found := g.FindPath(Loc{B: -1}, SearchOpts{Stop: isClear, GoalExit: func(k ExitKind, last ast.Node) bool { return k != ExitPanic }})
+		c.Check(!found, rule, f.Key+": clearFailing on every path", f.Pos(), m, "", "addRecBuf can return without clearFailing ("+pathStr(path)+"): the buffer's pending batches are not drained on the new sink")
+	}
 }
